@@ -499,7 +499,7 @@ func genCLIFileData(t *rapid.T, kind string, bad bool) []byte {
 
 func TestC20(t *testing.T) {
 	runWitnesses(t, "C20")
-	runProp(t, "cli", 1200, 40000, func(t *rapid.T) {
+	runProp(t, "cli", 6000, 40000, func(t *rapid.T) {
 		c := &c20Case{}
 		exts := map[string]string{"xml": ".xml", "json": ".json", "html": ".html"}
 		dirs := []string{"", "d/", "d/sub/", "e/"}
